@@ -145,6 +145,18 @@ func guardsAt(b *ssa.BasicBlock, e ssa.Value) map[string]bool {
 		if lk, ok := cf.Cond.(*ssa.Lookup); ok && cf.True && derivesFromElem(lk.Index, e, 3) {
 			out["in-set"] = true // membership in a set keyed by a field of the element
 		}
+		// the comma-ok spelling (`_, ok := set[k]; ok`, sets of struct{}) …
+		if ex, ok := cf.Cond.(*ssa.Extract); ok && cf.True && ex.Index == 1 {
+			if lk, ok := ex.Tuple.(*ssa.Lookup); ok && lk.CommaOk && derivesFromElem(lk.Index, e, 3) {
+				out["in-set"] = true
+			}
+		}
+		// … and membership in a list: slices.Contains(list, e.F)
+		if call, ok := cf.Cond.(*ssa.Call); ok && cf.True {
+			if ci := describeCall(&call.Call); ci.Pkg == "slices" && strings.HasPrefix(ci.Name, "Contains") && len(call.Call.Args) == 2 && derivesFromElem(call.Call.Args[1], e, 3) {
+				out["in-set"] = true
+			}
+		}
 		if bo, ok := cf.Cond.(*ssa.BinOp); ok {
 			// field comparisons: e.F == K  (record as "F==")
 			for _, side := range []ssa.Value{bo.X, bo.Y} {
